@@ -250,9 +250,11 @@ def _bind_eval(eng, st, names, body_node):
   fr = Frame(dict(zip(names, vs)), st.frame, st.frame.module, fname=st.frame.fname)
   n0 = len(st.pc)
   st.frames.append(fr)
+  st.nofresh += 1
   try:
     body = eng.truthy(st, eng.ev(body_node, st))
   finally:
+    st.nofresh -= 1
     st.frames.pop()
   axioms = st.pc[n0:]
   del st.pc[n0:]
@@ -269,7 +271,7 @@ def spec_call(eng, st, node):
       hi = eng.need_int(st, eng.ev(node.args[2], st))
       if isinstance(lo, int) and isinstance(hi, int) and hi <= lo:
         return name == "forall"     # empty range
-      if isinstance(lo, int) and isinstance(hi, int) and hi - lo <= 32:
+      if isinstance(lo, int) and isinstance(hi, int) and hi - lo <= 64:
         from .engine import Frame
         outs = []
         for val in range(lo, hi):
@@ -298,10 +300,12 @@ def spec_call(eng, st, node):
       fr = Frame(dict(zip(names, vs)), st.frame, st.frame.module, fname=st.frame.fname)
       n0 = len(st.pc)
       st.frames.append(fr)
+      st.nofresh += 1
       try:
         cond = eng.truthy(st, eng.ev(node.args[1], st))
         body = eng.truthy(st, eng.ev(node.args[2], st))
       finally:
+        st.nofresh -= 1
         st.frames.pop()
       axioms = st.pc[n0:]
       del st.pc[n0:]
@@ -458,6 +462,46 @@ def _s_current_version(eng, st):
   return read_version(eng)
 
 
+def _uf(eng, st, name, args, ret):
+  terms = []
+  for a in args:
+    if isinstance(a, (str, StrV)):
+      terms.append(str_term(eng, st, a))
+    elif isinstance(a, Ref):
+      terms.append(a.term)
+    elif isinstance(a, BytesV):
+      terms += [to_z3(a.length), to_z3(a.val)]
+    else:
+      terms.append(to_z3(eng.need_int(st, a)))
+  return z3.Function(name, *[t.sort() for t in terms], ret)(*terms)
+
+
+@specfn("ufb")
+def _s_ufb(eng, st, name, *args):
+  """Uninterpreted boolean spec function: ufb('name', args...)."""
+  return _uf(eng, st, "spec." + name, args, B)
+
+
+@specfn("ufi")
+def _s_ufi(eng, st, name, *args):
+  return _uf(eng, st, "spec." + name, args, I)
+
+
+@specfn("member")
+def _s_member(eng, st, cont, item):
+  return eng.contains(st, cont, item, None)
+
+
+@specfn("bval")
+def _s_bval(eng, st, b):
+  return bytes_val(b).val
+
+
+@specfn("blen")
+def _s_blen(eng, st, b):
+  return bytes_val(b).length
+
+
 @specfn("is_none")
 def _s_is_none(eng, st, x):
   return eng.is_(st, x, None)
@@ -538,6 +582,12 @@ def module_attr(eng, st, mod, attr):
     return FuncV("lib", f"{mod.name}.{attr}")
   if mod.name.endswith("paranoid_pb2") or mod.name.endswith("data_pb2"):
     return pb2_attr(eng, st, mod, attr)
+  if attr.endswith("_pb2"):
+    return ModV(mod.name + "." + attr)
+  import os
+  from . import source
+  if os.path.isdir(os.path.join(eng.repo or source.REPO, (mod.name + "." + attr).replace(".", "/"))):
+    return ModV(mod.name + "." + attr)
   if root in LIB_MODULES or mod.name.startswith("paranoid_crypto"):
     return Opaque(f"{mod.name}.{attr}")
   raise_unsupported(f"module attribute {mod.name}.{attr}")
@@ -619,10 +669,34 @@ def ref_attr(eng, st, base, attr, node):
     return BytesV(ln, vl)
   if t == "str":
     return StrV(z3.Function(name, V.RefSort, V.StrSort)(base.term))
+  if isinstance(t, tuple) and t[0] == "ref" and t[1] in MUTABLE_MESSAGES:
+    # mutable sub-message (test_info): a heap record in an arbitrary well-formed state, one per reference term
+    cache = st.__dict__.setdefault("ref_recs", {})
+    key = (z3.simplify(base.term).sexpr(), attr)
+    if key not in cache:
+      p = fresh_rec(eng, st, ("rec", t[1], None), f"{base.cls}.{attr}")
+      cache[key] = p
+      for inv in MUTABLE_MESSAGES[t[1]]:
+        from .engine import Frame
+        fr = Frame({"ti": p}, None, st.frame.module, fname="type-invariant")
+        st.frames.append(fr)
+        st.spec_depth += 1
+        try:
+          st.assume(eng.truthy(st, eng.ev(ast.parse(inv, mode="eval").body, st)))
+        finally:
+          st.spec_depth -= 1
+          st.frames.pop()
+      eng.used_theories.add(f"type invariant of {t[1]} assumed for input artifacts: " + "; ".join(MUTABLE_MESSAGES[t[1]]))
+    return cache[key]
   if isinstance(t, tuple) and t[0] == "ref":
     return Ref(z3.Function(name, V.RefSort, V.RefSort)(base.term), t[1])
   f = z3.Function(name, V.RefSort, V.sort_of(t))
   return f(base.term)
+
+
+# messages whose content the library mutates, with the representation invariants assumed of incoming artifacts
+MUTABLE_MESSAGES = {"TestInfo": ["wf_results(ti)", "wf_info(ti)",
+                                 "forall(j, 0, len(ti.test_results), ti.test_results[j].severity >= 0)"]}
 
 
 def ref_setattr(eng, st, base, attr, v, node):
@@ -630,6 +704,13 @@ def ref_setattr(eng, st, base, attr, v, node):
 
 
 def ref_contains(eng, st, cont, item):
+  """`item in <opaque container>`: an uninterpreted membership predicate of (container, item)."""
+  if isinstance(item, (str, StrV)):
+    f = z3.Function("member_str", V.RefSort, V.StrSort, B)
+    return f(cont.term, str_term(eng, st, item))
+  if is_int_like(item):
+    f = z3.Function("member_int", V.RefSort, I, B)
+    return f(cont.term, to_z3(item))
   raise_unsupported("membership in opaque reference")
 
 
@@ -972,12 +1053,21 @@ def tuple_sym_index(eng, st, items, i, node, checked=False):
     if st.spec:
       raise_unsupported("specification indexes an empty sequence outside a guard")
     raise Infeasible()
+  memo = eng.__dict__.setdefault("_ite_memo", {})
+  key = None
+  if all(isinstance(x, (bool, int)) for x in items):
+    key = (tuple(items), to_z3(i).get_id())
+    if key in memo:
+      return memo[key][1]
   t = None
   for it in items:
     ti = eng.value_type(st, it)
     t = ti if t is None else V.join_types(t, ti)
   vals = [V.coerce(t, it) for it in items]
-  return _ite_chain(t, vals, to_z3(i))
+  r = _ite_chain(t, vals, to_z3(i))
+  if key is not None:
+    memo[key] = (to_z3(i), r)
+  return r
 
 
 def _ite_chain(t, vals, i):
@@ -1473,10 +1563,12 @@ def comprehension(eng, st, node, kind):
     st.frames.append(fr)
     n0 = len(st.pc)
     st.spec_depth += 1
+    st.nofresh += 1
     try:
       eng.assign(st, gen.target, iter_item(eng, st, seq, j, node))
       elt = eng.ev(node.elt, st)
     finally:
+      st.nofresh -= 1
       st.spec_depth -= 1
       st.frames.pop()
     axioms = st.pc[n0:]
@@ -1746,9 +1838,25 @@ def call_method(eng, st, selfv, name, args, kwargs, node):
 def ref_method(eng, st, selfv, name, args, kwargs, node):
   """Method call on an opaque reference: uninterpreted, deterministic function of (ref, int args); result opaque
   unless a model is registered in eng.ref_methods[(cls, name)]."""
-  h = getattr(eng, "ref_methods", {}).get((selfv.cls, name))
-  if h is not None:
-    return h(eng, st, selfv, args, kwargs, node)
+  rt = eng.cur.ref_methods.get((selfv.cls, name)) if eng.cur is not None and hasattr(eng.cur, "ref_methods") else None
+  if rt is not None:
+    ens = []
+    if isinstance(rt, tuple):
+      rt, ens = rt
+    eng.used_theories.add(f"user-supplied {selfv.cls}.{name}: returns an arbitrary value of type {rt}"
+                          + (f" with {ens}" if ens else "") + ", does not raise")
+    res = eng.fresh_heap(st, rt, f"{selfv.cls}.{name}")
+    from .engine import Frame
+    for e in ens:
+      fr = Frame({"result": res, "args": tuple(args)}, None, st.frame.module, fname="ref-method")
+      st.frames.append(fr)
+      st.spec_depth += 1
+      try:
+        st.assume(eng.truthy(st, eng.ev(ast.parse(e, mode="eval").body, st)))
+      finally:
+        st.spec_depth -= 1
+        st.frames.pop()
+    return res
   eng.abstracted.add(f"method {selfv.cls}.{name} (opaque)")
   return Opaque(f"{selfv.cls}.{name}()")
 
@@ -1909,8 +2017,11 @@ def str_len(eng, st, v):
 
 
 def _uf_str(eng, st, tag, args):
-  """String built by an uninterpreted function of its (scalar) arguments."""
+  """String built by an uninterpreted function of its (scalar) arguments; arbitrary if an argument is abstracted."""
   terms, sorts = [], []
+  if any(isinstance(a, (Opaque, Ptr)) for a in args):
+    return StrV(z3.Const(V.fresh_name("str_abstracted"), V.StrSort))
+  tag = "".join(ch if (ch.isalnum() or ch in "_.") else "_" for ch in tag) + "_" + tag.encode().hex()[:16]
   for a in args:
     if isinstance(a, (str, StrV)):
       terms.append(str_term(eng, st, a))
